@@ -64,7 +64,8 @@ def validate(module: str, traces: list, *, workdir: str, shards: int = 16, timeo
     jobs = []
     for i, part in enumerate(parts):
         path = os.path.join(workdir, f"{module}_batch{i}.json")
-        tlc.dump_json(path, part)
+        # "meta" is for the python side (replays, known-finding matching); TLC never sees it
+        tlc.dump_json(path, [{k: v for k, v in t.items() if k != "meta"} for t in part])
         e = {"TRACE_FILE": path}
         e.update(env or {})
 
